@@ -115,6 +115,13 @@ def cat(tier):
             c.append(('strong', 'union-coll', {'classes': catalog.BASE, 'root': t}))
             c.append(('strong', 'union-coll', {'classes': catalog.BASE + [{'name': 'K', 'params': [('u', t), ('v', 'int', 1)]}],
                                                'root': ('dict', 'str', ('cls', 'K'))}))
+        # a Union of two unrelated classes that share an attribute name with different types
+        ua = {'name': 'Ua', 'params': [('label', 'str'), ('size', 'int'), ('note', 'str', 'n')]}
+        ub = {'name': 'Ub', 'params': [('size', ('list', 'int')), ('w', 'int')]}
+        for root in (('union', [('cls', 'Ua'), ('cls', 'Ub')]), ('list', ('union', [('cls', 'Ub'), ('cls', 'Ua')]))):
+            c.append(('strong', 'union-classes', {'classes': catalog.BASE + [ua, ub], 'root': root}))
+        c.append(('strong', 'union-classes', {'classes': catalog.BASE + [ua, ub, {'name': 'K', 'params': [
+            ('u', ('union', [('cls', 'Ua'), ('cls', 'Ub')])), ('n', 'int', 0)]}], 'root': ('dict', 'str', ('cls', 'K'))}))
         for nreq, nopt in ((8, 0), (7, 2), (9, 1), (4, 5)):
             big = {'name': 'Big', 'params': [('p%d_x' % i, 'int') for i in range(nreq)] + [('o%d' % i, 'str', 'd') for i in range(nopt)]}
             c.append(('strong', 'many-params', {'classes': catalog.BASE + [big], 'root': ('list', ('cls', 'Big'))}))
